@@ -29,6 +29,8 @@ def run(c):
     r6(c)
     r7(c)
     r8(c)
+    from rules import c07
+    c07.r5(c, rid="C09.R9")
 
 
 def apply_logics(repo):
